@@ -36,6 +36,8 @@ class Cfg:
         self.max_blocks = kw.get('max_blocks', 5)
         self.meta = kw.get('meta', None)          # strategy for metadata list or None
         self.langs = kw.get('langs', st.sampled_from([None, 'python', 'c']))
+        self.cell_inlines = kw.get('cell_inlines', ['t', 'em', 'code'])
+        self.cell_pad = kw.get('cell_pad', st.just(True))      # False: cells written without padding blanks (|a|b|)
 
 
 def text(cfg, n=3):
@@ -117,10 +119,10 @@ def blocks(cfg, depth=None, max_n=None, top=True):
     if 'figure' in kinds:
         opts.append(st.tuples(text(cfg, 2), cfg.images, cfg.titles).map(lambda t: ['figure', t[0][1], t[1], t[2]]))
     if 'table' in kinds and top:
-        cell = inlines(cfg, 0, False, 2, ['t', 'em', 'code'])
+        cell = inlines(cfg, 0, False, 2, cfg.cell_inlines)
         opts.append(st.integers(1, 4).flatmap(lambda nc: st.tuples(
             st.lists(st.sampled_from('nlrc'), min_size=nc, max_size=nc), st.lists(cell, min_size=nc, max_size=nc),
-            st.lists(st.lists(cell, min_size=nc, max_size=nc), min_size=1, max_size=3))).map(lambda t: ['table', t[0], t[1], t[2], None]))
+            st.lists(st.lists(cell, min_size=nc, max_size=nc), min_size=1, max_size=3), cfg.cell_pad)).map(lambda t: ['table', t[0], t[1], t[2], None, t[3]]))
     if 'deflist' in kinds and top:
         opts.append(st.tuples(st.lists(text(cfg, 2), min_size=1, max_size=2), st.lists(text(cfg, 3), min_size=1, max_size=2))
                     .map(lambda t: ['deflist', [x[1] for x in t[0]], [x[1] for x in t[1]]]))
@@ -284,8 +286,12 @@ def ser_block(b):
         return ('\n\n' if b[2] else '\n').join(lines)
     if k == 'table':
         al = {'n': '---', 'l': ':---', 'r': '---:', 'c': ':---:'}
-        rows = ['| ' + ' | '.join(ser_inl(c) for c in b[2]) + ' |', '| ' + ' | '.join(al[a] for a in b[1]) + ' |']
-        rows += ['| ' + ' | '.join(ser_inl(c) for c in r) + ' |' for r in b[3]]
+        if len(b) > 5 and not b[5]:
+            rows = ['|' + '|'.join(ser_inl(c) for c in b[2]) + '|', '|' + '|'.join(al[a] for a in b[1]) + '|']
+            rows += ['|' + '|'.join(ser_inl(c) for c in r) + '|' for r in b[3]]
+        else:
+            rows = ['| ' + ' | '.join(ser_inl(c) for c in b[2]) + ' |', '| ' + ' | '.join(al[a] for a in b[1]) + ' |']
+            rows += ['| ' + ' | '.join(ser_inl(c) for c in r) + ' |' for r in b[3]]
         if b[4]:
             rows.append('[' + b[4] + ']')
         return '\n'.join(rows)
